@@ -38,6 +38,23 @@ start :: fn do
     pr(l)
 end
 ''',
+"function_definitions_with_their_own_type_and_crash_sites": '''
+signum: fn int -> int : fn n: int -> int do
+    if n > 0 do ret 1 end
+    if n < 0 do ret 0 - 1 end
+    if n == 0 do ret 0 end
+    <!>
+end
+start :: fn do
+    loc: fn int -> int = fn n: int -> int do
+        if n > 0 do ret n end
+        <!>
+    end
+    pr(signum(2))
+    pr(loc(1))
+    (1 + 1) <=> 2
+end
+''',
 "enum_and_case": '''
 En :: enum
     A int,
